@@ -362,6 +362,7 @@ func runC43(c *Ctx) {
 	c43NumberBases(c)
 	c43PrinterForms(c)
 	c43PortRangeMeaning(c)
+	ipv4PredicateMeaning(c, "E2-ipv4-predicate-meaning")
 	kp := "gateway/pktcls."
 	c43Combinator(c, "("+kp+"CondAllOf).Eval", false, false)
 	c43Combinator(c, "("+kp+"CondAnyOf).Eval", true, true)
